@@ -24,6 +24,8 @@ from strengths.rdnetwork import Species, RDNetwork, Reaction  # noqa: E402
 from strengths.rdgridspace import RDGridSpace  # noqa: E402
 from strengths.rdgraphspace import RDGraphSpace, RDGraphSpaceNode  # noqa: E402
 from strengths.rdsystem import RDSystem, rdsystem_from_dict  # noqa: E402
+from strengths.rdspace import rdspace_from_dict  # noqa: E402
+from strengths.coarsegrain import grid_to_graph  # noqa: E402
 
 TOL = 1e-12
 ENVS = ["cyt", "mem", "ext"]
@@ -1047,7 +1049,200 @@ def _case_edit(case, out, stats):
     out.extend(mine)
 
 
-_SUBS = {"edit": _case_edit, "magnitude": _case_magnitude, "carrier": _case_carrier, "history": _case_history, "dict": _case_dict, "default": _case_default, "access": _case_access, "ops": _case_ops, "regen": _case_regen,
+# ---- the state a system holds BEFORE regeneration; spaces edited through their setters ------------------
+
+PRE_STATES = ["default", "ctor:UnitArray:µmol", "ctor:UnitArray:nmol", "ctor:UnitArray:mol", "ctor:UnitArray:molecule",
+              "attr:UnitArray:µmol", "attr:UnitArray:nmol", "attr:UnitArray:mol", "ctor:list", "attr:list", "set_state", "reset_state"]
+PRE_EDITS = ["none", "density-scalar", "density-dict"]
+
+
+def _case_prestate(case, out, stats):
+    """set_default_state() / set_default_chemostats() whatever state the system held before (explicit
+    UnitArray in a foreign quantity unit, bare numbers in the system's units, ...): afterwards every
+    entry, read in SI from the raw array + its units and through get_state, is density x volume."""
+    base = hist_base(case["start"])
+    base["net_us"], base["sys_us"] = case["net_us"], case["sys_us"]
+    net = build_network(base)
+    space = build_space(base)
+    n = len(base["species"]) * D.ncells(base)
+    vals = [float(PRIMES[i % len(PRIMES)]) + 0.25 for i in range(n)]
+    flags = [(i // 2) % 2 for i in range(n)]
+    pre = case["pre"].split(":")
+    us = mk_us(base["sys_us"])
+    if pre[0] == "ctor":
+        st = UnitArray(vals, pre[2]) if pre[1] == "UnitArray" else list(vals)
+        system = RDSystem(net, space, state=st, chemostats=list(flags), units_system=us)
+    else:
+        system = RDSystem(net, space, units_system=us)
+        if pre[0] == "attr":
+            system.state = UnitArray(vals, pre[2]) if pre[1] == "UnitArray" else list(vals)
+            system.chemostats = list(flags)
+        elif pre[0] == "set_state":
+            system.set_state(0, 0, UnitValue(3, "mol"))
+            system.set_state(len(base["species"]) - 1, D.ncells(base) - 1, 7)
+            system.set_chemostat(0, 0, 1 - int(system.get_chemostat(0, 0)))
+        elif pre[0] == "reset_state":
+            system.reset_state()
+            system.reset_chemostats()
+    if pre[0] in ("ctor", "attr") and uq.sys_of(system.state.units)[2] != D.USYS[base["net_us"]][2]:
+        stats["prestate_in_foreign_quantity_unit"] = stats.get("prestate_in_foreign_quantity_unit", 0) + 1
+    if case["edit"] == "density-scalar":
+        net.species[0].density = 211
+    elif case["edit"] == "density-dict":
+        net.species[1].density = {base["envs"][0]: 223, "default": "227 nM"}
+    system.set_default_state()
+    system.set_default_chemostats()
+    stats["regenerations"] = stats.get("regenerations", 0) + 1
+    model = live_model(base, net)
+    sub = []
+    check_defaults(model, system, sub, stats, site="x")
+    getter_pass(model, net, system, sub, stats, forms="species", tag="regenerated")
+    seen = set()
+    for k, w in sub:
+        p = k.split(":")
+        cls = p[1] if p[1].startswith("get_") else ("chemostats" if "chemostats" in p else "state")
+        kk = "C13:prestate:%s:%s:%s" % (case["pre"], case["edit"], cls)
+        if kk not in seen:
+            seen.add(kk)
+            out.append((kk, "state held before = %s, edit = %s, then set_default_state() + set_default_chemostats(): %s" % (case["pre"], case["edit"], w)))
+
+
+SPACE_OPS = {
+    "graph": ["node0.env+1", "node1.env+1", "node2.env+1", "node0.vol=bare", "node1.vol=text", "node2.vol=uv", "node1.us", "space.us"],
+    "grid": ["cell_env=map", "cell_env=scalar", "cell_env[1]+1", "cell_env[3]+1", "cell_vol=bare", "cell_vol=text", "cell_vol=uv",
+             "space.us", "boundary"],
+}
+SPACE_ROUTES = {"graph": ["direct", "from_dict", "grid_to_graph"], "grid": ["direct", "from_dict"]}
+
+
+def space_dict(case):
+    """Dictionary form of a space description (bare / text quantities only)."""
+    def jq(q):
+        return "%r %s" % (q[1], q[2]) if isinstance(q, (list, tuple)) else q
+    sp = case["space"]
+    if sp["type"] == "grid":
+        return {"type": "grid", "w": sp["w"], "h": sp["h"], "d": sp["d"], "cell_env": list(sp["env"]), "cell_volume": jq(sp["vol"]),
+                "units": uq.sysdict(D.USYS[case["space_us"]])}
+    return {"type": "graph", "units": uq.sysdict(D.USYS[case["space_us"]]), "edges": [],
+            "nodes": [{"volume": jq(nd["vol"]), "environment": nd["env"], "units": uq.sysdict(D.USYS[nd["us"]])} for nd in sp["nodes"]]}
+
+
+def live_space(model, space):
+    """The space description as its public getters report it NOW (get_cell_env(i), get_cell_vol(i))."""
+    m = dict(model)
+    n = space.size()
+    envs = [int(space.get_cell_env(i)) for i in range(n)]
+    vols = [["si", uq.si_value(space.get_cell_vol(i)), "volume"] for i in range(n)]
+    if type(space) is RDGridSpace and all(v == vols[0] for v in vols):
+        m["space"] = {"type": "grid", "w": space.w, "h": space.h, "d": space.d, "env": envs, "vol": vols[0]}
+    else:
+        m["space"] = {"type": "graph", "nodes": [{"vol": v, "env": e, "us": 0} for v, e in zip(vols, envs)]}
+    m["space_us"] = 0
+    return m
+
+
+def space_apply(op, space):
+    if op.startswith("node"):
+        k = int(op[4])
+        nd = space.nodes[k]
+        if op.endswith(".env+1"):
+            nd.environment = (nd.environment + 1) % 3
+        elif op.endswith(".vol=bare"):
+            nd.volume = 13
+        elif op.endswith(".vol=text"):
+            nd.volume = "17 fL"
+        elif op.endswith(".vol=uv"):
+            nd.volume = UnitValue(19, "µm3")
+        elif op.endswith(".us"):
+            nd.units_system = mk_us(2)
+        else:
+            raise ValueError(op)
+    elif op == "space.us":
+        space.units_system = mk_us(1)
+    elif op == "cell_env=map":
+        space.cell_env = [(int(e) + 1) % 3 for e in space.cell_env]
+    elif op == "cell_env=scalar":
+        space.cell_env = 2
+    elif op.startswith("cell_env["):
+        k = int(op[9])
+        arr = space.cell_env
+        arr[k] = (int(arr[k]) + 1) % 3
+    elif op == "cell_vol=bare":
+        space.cell_vol = 13
+    elif op == "cell_vol=text":
+        space.cell_vol = "17 fL"
+    elif op == "cell_vol=uv":
+        space.cell_vol = UnitValue(19, "µm3")
+    elif op == "boundary":
+        space.set_boundary_conditions({"x": "periodical"})
+    else:
+        raise ValueError(op)
+
+
+def _spaceedit_run(case, out, stats):
+    kind, route = case["kind"], case["route"]
+    base = hist_base("grid" if (kind == "grid" or route == "grid_to_graph") else "graph")
+    net = build_network(base)
+    if route == "direct":
+        space = build_space(base)
+    elif route == "from_dict":
+        space = rdspace_from_dict(space_dict(base))
+    else:
+        space = grid_to_graph(build_space(base))
+    us = mk_us(base["sys_us"])
+    # the space has been read before it is edited
+    existing = RDSystem(net, space, units_system=us)
+    RDSystem(net, space, units_system=us)
+    space.get_cell_env_array()
+    space.get_cell_vol_array()
+    for op in case["ops"]:
+        space_apply(op, space)
+    stats["space_edits"] = stats.get("space_edits", 0) + len(case["ops"])
+    model = live_space(live_model(base, net), space)
+    if type(space) is RDGraphSpace and [nd.environment for nd in space.nodes] != [D.cell_env(model, c) for c in range(space.size())]:
+        stats["space_getters_disagree"] = stats.get("space_getters_disagree", 0) + 1
+    hname = ",".join(case["ops"]) if case["ops"] else "none"
+    for sync in ("new-system", "regenerate"):
+        if sync == "new-system":
+            sysx = RDSystem(net, space, units_system=us)
+        else:
+            existing.set_default_state()
+            existing.set_default_chemostats()
+            sysx = existing
+        sub = []
+        check_defaults(model, sysx, sub, stats, site="x")
+        getter_pass(model, net, sysx, sub, stats, forms="one", tag="after-space-edit")
+        seen = set()
+        for k, w in sub:
+            p = k.split(":")
+            cls = "chemostats" if ("chemostats" in p or p[1] == "get_chemostat") else "state"
+            kk = "C13:space-edit:%s:%s:%s:%s:%s" % (kind, route, hname, sync, cls)
+            if kk not in seen:
+                seen.add(kk)
+                out.append((kk, "%s space (%s) after %s, %s: %s" % (kind, route, hname, sync, w)))
+
+
+def _case_spaceedit(case, out, stats):
+    """Only minimal violating edit sequences are reported."""
+    mine = []
+    _spaceedit_run(case, mine, stats)
+    ops = list(case["ops"])
+    if mine and ops:
+        for k in range(len(ops)):
+            sub = dict(case)
+            sub["ops"] = ops[:k] + ops[k + 1:]
+            inner = []
+            try:
+                _spaceedit_run(sub, inner, {})
+            except Exception as e:
+                inner = [("x", str(e))]
+            if inner:
+                stats["space_edit_sequences_not_minimal"] = stats.get("space_edit_sequences_not_minimal", 0) + 1
+                return
+    out.extend(mine)
+
+
+_SUBS = {"prestate": _case_prestate, "spaceedit": _case_spaceedit, "edit": _case_edit, "magnitude": _case_magnitude, "carrier": _case_carrier, "history": _case_history, "dict": _case_dict, "default": _case_default, "access": _case_access, "ops": _case_ops, "regen": _case_regen,
          "override": _case_override}
 
 
@@ -1634,9 +1829,51 @@ def sp_edit(tier):
     return name, seeds, expand
 
 
-SPACE_BUILDERS = [sp_shapes, sp_layout, sp_units, sp_access, sp_set1, sp_set2, sp_regen, sp_dict, sp_history, sp_magnitude, sp_carrier, sp_edit]
+def sp_prestate(tier):
+    seeds = [(start, nu, su, pre, ed) for start in ("grid", "graph") for nu in range(3) for su in range(3)
+             for pre in PRE_STATES for ed in PRE_EDITS]
+
+    def expand(seed):
+        start, nu, su, pre, ed = seed
+        base = hist_base(start)
+        base.update({"sub": "prestate", "start": start, "net_us": nu, "sys_us": su, "pre": pre, "edit": ed})
+        return base
+    name = ("prestate: grid 2x1x2 | graph of 3 nodes x network units (3) x system units (3) x the state held BEFORE regeneration "
+            "{generated default; explicit UnitArray in µmol / nmol / mol / molecule through RDSystem(state=) or system.state =; bare "
+            "number list through either; after set_state / set_chemostat; after reset_state() / reset_chemostats()} (with an explicit "
+            "chemostat list) x {no edit, density scalar edit, density dict edit}; then set_default_state() + set_default_chemostats(): "
+            "raw array + its units and get_state (every species form) = density x volume")
+    return name, seeds, expand
+
+
+def sp_spaceedit(tier):
+    seeds = []
+    for kind in ("graph", "grid"):
+        for route in SPACE_ROUTES[kind]:
+            seeds.append((kind, route, ()))
+            for a in SPACE_OPS[kind]:
+                seeds.append((kind, route, (a,)))
+            for a in SPACE_OPS[kind]:
+                for b in SPACE_OPS[kind]:
+                    seeds.append((kind, route, (a, b)))
+
+    def expand(seed):
+        kind, route, ops = seed
+        base = hist_base("grid" if (kind == "grid" or route == "grid_to_graph") else "graph")
+        base.update({"sub": "spaceedit", "kind": kind, "route": route, "ops": list(ops)})
+        return base
+    name = ("space-edit: a space that has ALREADY been read (two systems built on it, get_cell_env_array / get_cell_vol_array called) is "
+            "edited through its public setters - graph (built directly | from its dictionary | by grid_to_graph): node.environment, "
+            "node.volume (bare / text / UnitValue), node.units_system, space.units_system; grid (direct | from dictionary): cell_env = "
+            "map / scalar, cell_env[i] in place, cell_vol = bare / text / UnitValue, units_system, set_boundary_conditions - ALL "
+            "sequences of <= 2; then a NEW RDSystem and regeneration of the one built before: defaults follow what "
+            "get_cell_env(i) / get_cell_vol(i) report NOW")
+    return name, seeds, expand
+
+
+SPACE_BUILDERS = [sp_shapes, sp_layout, sp_units, sp_access, sp_set1, sp_set2, sp_regen, sp_dict, sp_history, sp_magnitude, sp_carrier, sp_edit, sp_prestate, sp_spaceedit]
 CHUNK = {"sp_shapes": 400, "sp_layout": 60, "sp_units": 60, "sp_access": 2, "sp_set1": 400, "sp_set2": 300, "sp_regen": 60,
-         "sp_override": 40, "sp_dict": 60, "sp_history": 12, "sp_magnitude": 150, "sp_carrier": 1, "sp_edit": 100}
+         "sp_override": 40, "sp_dict": 60, "sp_history": 12, "sp_magnitude": 150, "sp_carrier": 1, "sp_edit": 100, "sp_prestate": 40, "sp_spaceedit": 40}
 
 _SPACES = None
 
@@ -1649,6 +1886,10 @@ def _nontrivial(case, stats):
         return len(case["ops"]) > 0
     if sub == "edit":
         return stats.get("edits_applied", 0) > 0
+    if sub == "prestate":
+        return case["pre"] != "default"
+    if sub == "spaceedit":
+        return len(case["ops"]) > 0
     if sub == "magnitude":
         return stats.get("extreme_entries_compared", 0) > 0
     if sub == "carrier":
